@@ -2,21 +2,40 @@
   Props/C02.lean — property theorems for C02: `==`, `hash()` and `is_running()` follow the process,
   not the PID.  The model is the identity machine shared with C01 (Model/C01.lean), instantiated
   with the facts extracted for this check (Generated/C02.lean → Model/C02Gen.lean); helper lemmas
-  live in Proofs/C01*.lean and Proofs/C02.lean.
+  live in Proofs/C01*.lean and Proofs/C02.lean (the clauses are proved there for ANY configuration with
+  `BootGood`; this file instantiates them).
 
-  `cfg_good` is the proof obligation that breaks when `boot_time()` rewrites `BOOT_TIME` (lead L2) or
-  when `create_time()` stops using the cached value.
+  Obligations on the translator's facts: `cfg_good` breaks when `boot_time()` rewrites `BOOT_TIME` (lead L2), when
+  `BOOT_TIME` is stored anywhere else in the package (fact `bootStoresElsewhere`), or when the value `create_time()`
+  RETURNS stops coming from the cached `BOOT_TIME` (fact `createBoot`: a dead `BOOT_TIME or boot_time()` expression does
+  not count); `cfg_identity_shape` pins `__eq__` / `__ne__` / `__hash__` and every store to `_ident`, `_hash`, `_gone`,
+  `_pid_reused`, `_create_time`.
 
   Histories: any list of kernel events (spawn / exit / reap / tick / **clock step**) and psutil calls
   (Process(pid) at any point, is_running, signals, setters, ppid, **boot_time()**, create_time, ==,
   hash, process_iter, oneshot() entry/exit, str), plus permission changes (the kernel refusing a PID with
-  EPERM / EACCES).  Hypotheses: the published boot time is never 0 (`b0 ≠ 0`) and `/proc/pid/stat` can always be
-  opened (`HistOK`) — what `==` / `is_running()` answer otherwise is characterised at the end of the file.
+  EPERM / EACCES).  Hypotheses (`HistOK nt`, `BtOK nt b0`, with `nt = cfg.createNoneTest`):
+  * `/proc/pid/stat` can always be opened (no `hide p true`) and no PID is recycled within one clock tick (no
+    `spawnSameTick`: psutil's documented assumption) — what `==` / `is_running()` answer with unreadable stat files is
+    characterised at the end of the file;
+  * the published boot time is never 0 — ONLY while `create_time()` tests the cached value by truthiness
+    (`nt = false`, the source as found).  C02 is FALSE without it there (finding `C02-boottime-zero`,
+    `C02_btime0_counterexample`); with `BOOT_TIME is not None` (`nt = true`, fixes/C02-boottime-zero.diff) the
+    hypothesis is void (`BtOK true b` is `True`) and `C02_any_boot_full_of_none_test` holds for every boot time.
+
+  What is promised about `hash()`: equal objects hash alike (`C02_hash_congr`) and an object's hash never changes
+  (`C02_answers_stable`).  The CONVERSE ("hash alike ⇒ same process") is NOT a clause: no hash function can
+  promise it, and the statement's "exactly when" is read for `==` only.  In the model the hash IS the identity
+  `(pid, create time)` (`Out.ident`), so the converse holds there by construction — a fact about the model, tied to
+  the code by `cfg_identity_shape` (`hash(self._ident)`), not a promise about CPython's `hash()`.
 
   Objects: `St.ps.objs` holds every `Process` object the history produced — those built by
   `Process(pid)` AND those built and yielded by `process_iter()` (which appends them and returns their
   indices); every theorem that says "for any object i of the state" therefore speaks about both kinds, and
-  about pairs mixing them.
+  about pairs mixing them.  NOT in the model: instances of `Process` subclasses / `psutil.Popen` (same `_init`;
+  exercised by the correspondence — families x:classes, x:hashes — and pinned by `cfg_identity_shape`: `isinstance`
+  test), `psutil.Popen` over an already reaped child (`_ignore_nsp`: `_ident = (pid, None)`, `_gone = True`), objects
+  returned by `parent()` / `children()` / `parents()` / `wait_procs()`.
 -/
 import PsutilModel.Proofs.C02
 import PsutilModel.Proofs.C01Hid
@@ -24,7 +43,8 @@ import PsutilModel.Model.C02Gen
 namespace Psutil.C02
 open Psutil.C01 Psutil.C01.Spec
 
-/-- `BOOT_TIME` is written once and `create_time()` uses it -/
+/-- `BOOT_TIME` is written once — under `if BOOT_TIME is None` inside `boot_time()`, and nowhere else in the package —
+    and the boot time that flows into `create_time()`'s result is the cached one whenever there is one -/
 theorem cfg_good : cfg.BootGood := ⟨by decide, by decide⟩
 
 /-- **cfg_identity_shape** (obligation on the source of `__eq__` / `__ne__` / `__hash__` and on every store to the
@@ -83,7 +103,8 @@ theorem C02_eq_iff_same_incarnation (b0 : Nat) (hb0 : BtOK cfg.createNoneTest b0
     (step cfg (run cfg (St.init b0) h) (.c (.eq i j))).2 = .bool (decide (SameIncarnation a b)) :=
   eq_iff_same_gen cfg_good b0 hb0 h hh i j a b ha hb
 
-/-- **C02_hash_congr.** Equal objects hash alike. -/
+/-- **C02_hash_congr.** Equal objects hash alike.  (One direction only: this and the stability half of
+    `C02_answers_stable` are everything C02 promises about `hash()`; see the header for the converse.) -/
 theorem C02_hash_congr (b0 : Nat) (hb0 : BtOK cfg.createNoneTest b0) (h : List Ev) (hh : HistOK cfg.createNoneTest h)
     (i j : Nat) (a b : PObj)
     (ha : (run cfg (St.init b0) h).ps.objs[i]? = some a) (hb : (run cfg (St.init b0) h).ps.objs[j]? = some b)
@@ -229,8 +250,13 @@ theorem C02_iter_handles_valid (b0 : Nat) (hb0 : BtOK cfg.createNoneTest b0) (h 
   intro e he
   exact hinv'.ps.pmap e (hpm ▸ he)
 
-/-- **C02_oneshot_identity.** Entering or leaving a `oneshot()` block on any object changes nothing the
-    properties speak about (no state, no answer). -/
+/-- **C02_oneshot_identity** (a statement about the MODEL, true by definition — `rfl`): the arm `Call.oneshot` of
+    `step` is the identity.  The driver maps `oneshot()` entry/exit AND every "other" public call of the histories
+    (wait(0), as_dict, name, status, cpu_times, str, hash, username, … and C02's module-level calls pids(),
+    pid_exists(), cpu_percent(), memory_info(), cmdline(), !=, set(), dict keys, == with foreign types)
+    to this arm; that those calls really leave every later `==` / `hash()` / `is_running()` answer alone is NOT proved
+    here — it is what the correspondence observes on the real code (ops `enter` / `leave` / `other`), and what
+    `cfg_identity_shape` (no other store to the identity attributes) ties to the source. -/
 theorem C02_oneshot_identity (s : St) (i : Nat) (enter : Bool) :
     step cfg s (.c (.oneshot i enter)) = (s, .unit) := rfl
 
